@@ -13,6 +13,25 @@ def strip(t):
     return t
 
 
+_NF = {}
+
+
+def nonce_fns(ctx):
+    """crate functions (not closures) that derive a scalar from a keyed Blake2b MAC with personalisation: the seed-nonce
+    derivation, found structurally (no name anchor)"""
+    k = id(ctx.facts)
+    if k not in _NF:
+        _NF.clear()
+        out = set()
+        sites = ctx.facts.callers_decl.get('blake2::Blake2bMac::<OutSize>::new_with_salt_and_personal', [])
+        for (b, bb, t) in sites:
+            root = ctx.facts.root_fn(b)
+            if root is not None and 'Scalar' in root.locals[0]['ty']:
+                out.add(root.path)
+        _NF[k] = out
+    return _NF[k]
+
+
 def flatten_chain(t):
     t0 = strip(t)
     if t0.tag == 'chain':
@@ -77,7 +96,7 @@ def analyse_generator(ctx, prover, alt, samplers):
         i2 = dict(info)
         i2['elem'] = e
         es = strip(e)
-        if es.tag == 'call' and es[1].split('::')[-1] == 'nonce' and es[1] in ctx.facts.fn:
+        if es.tag == 'call' and es[1] in nonce_fns(ctx):
             i2['kind'] = 'nonce'
             args = es[2]
             lab = strip(args[1])
